@@ -189,22 +189,33 @@ def rule_b(ck, u, eng, P):
         ck.verdict(fe['mask'] == {0x7f} and fe['cont'] == {0x80}, 'C14.b', 'encoder:octet', cast.where(u.fn('varint_encode')),
                    'emitted octet = (n & 0x7f) | 0x80 on continuation' if fe['mask'] == {0x7f} and fe['cont'] == {0x80} else
                    'emitted octet uses mask %s / continuation %s' % (sorted(fe['mask']), sorted(fe['cont'])))
-        # counters start at 1 and step by 1 (init of the for loops)
+        # the count returned is the number of iterations (one octet each): with a loop variable that every completed
+        # iteration advances by one from c0, the result in the last iteration is (its value at the loop head) + d with
+        # c0 + d == 1 - whichever way the loop is written (for(i = 1;;) returning i, do { ++i } while returning i, ...)
+        from .common import loop_counter, _strip_cast as strip_cast
         for fn in ('varint_encode', 'varint_u64_length'):
             f = u.fn(fn)
-            loops = [x for x in cast.walk(f) if cast.kind(x) == 'ForStmt']
-            ok = False
-            if len(loops) == 1:
-                init, inc = loops[0]['inner'][0], loops[0]['inner'][3]
-                iv = None
-                for d in cast.walk(init):
-                    if cast.kind(d) == 'VarDecl' and d.get('inner'):
-                        iv = u.const_value(d['inner'][0])
-                incok = cast.kind(cast.strip(inc)) == 'UnaryOperator' and cast.strip(inc).get('opcode') == '++'
-                ok = iv == 1 and incok
-            ck.verdict(ok, 'C14.b', fn + ':counter', cast.where(f),
-                       'octet counter starts at 1 and is incremented once per further octet' if ok else
-                       'octet counter does not start at 1 / step by 1')
+            ok = None
+            why = 'no returning path'
+            for pth in P[fn]:
+                if pth.end != 'return' or pth.ret is None:
+                    continue
+                if not pth.loops:
+                    ok, why = False, 'a result is returned without running the loop'
+                    continue
+                r = strip_cast(pth.ret)
+                good = False
+                for k, h, pre in loop_counter(P[fn], pth):
+                    pre_ = strip_cast(pre) if pre is not None else None
+                    d = L(r) - L(h)
+                    if pre_ is not None and sym.is_c(pre_) and d.is_const() and pre_[1] + int(d.c) == 1:
+                        good = True
+                if not good:
+                    why = 'result %s is not 1 + the number of completed iterations' % fmt(r)
+                ok = good if ok is None else (ok and good)
+            ck.verdict(bool(ok), 'C14.b', fn + ':counter', cast.where(f),
+                       'the result counts one per emitted octet (1 + completed iterations)' if ok else
+                       'octet counter wrong: %s' % why)
 
 
 def rule_c(ck, u):
